@@ -68,6 +68,9 @@ func directedCommon(c caps, lens []int, bigLens []int) []*val {
 	for _, s := range unicodePool {
 		vs = append(vs, vStr(s))
 	}
+	if !thorough && len(bigLens) > 1 {
+		bigLens = bigLens[len(bigLens)-1:]
+	}
 	for _, n := range append(append([]int{}, lens...), bigLens...) {
 		vs = append(vs, vStr(strOfLen(n)))
 		if c.bytes {
